@@ -65,11 +65,11 @@ theorem IntTy.finite_bounds {t : IntTy} {π : Policy} {v : Int} (h : t.finite π
 
 /-! ## neg -/
 
-theorem negLarger_ok {t : IntTy} {π : Policy} (w : t.WF π) (hl : t.LargerOK) (hco : π.checkOverflow = true)
+theorem negLarger_tri {t : IntTy} {π : Policy} (w : t.WF π) (hl : t.LargerOK) (hco : π.checkOverflow = true)
     (dir : Dir) {to0 x : Int} (h0 : t.inRange to0) (hx : t.finite π x) :
-    OK t π dir (negLarger t π to0 x dir) (.fin (-x)) := by
+    Tri t π dir to0 (negLarger t π to0 x dir) (-x) := by
   unfold negLarger
-  apply assignInt_ok w (larger_wf hl true π) hco (larger_gap hl true) dir h0
+  apply assignInt_tri w (larger_wf hl true π) hco (larger_gap hl true) dir h0
   apply larger_finite_signed w.bits_pos hl
   obtain ⟨_, _, h3⟩ := larger_half w.bits_pos hl true
   obtain ⟨b1, b2⟩ := IntTy.finite_bounds hx
@@ -78,16 +78,16 @@ theorem negLarger_ok {t : IntTy} {π : Policy} (w : t.WF π) (hl : t.LargerOK) (
   · have := b2 hs; omega
   · have := b1 hs; omega
 
-theorem negSigned_ok {t : IntTy} {π : Policy} (w : t.WF π) (hs : t.signed = true) (hl : t.LargerOK)
+theorem negSigned_tri {t : IntTy} {π : Policy} (w : t.WF π) (hs : t.signed = true) (hl : t.LargerOK)
     (hco : π.checkOverflow = true) (dir : Dir) {to0 x : Int} (h0 : t.inRange to0) (hx : t.finite π x) :
-    OK t π dir (negSigned t π to0 x dir) (.fin (-x)) := by
+    Tri t π dir to0 (negSigned t π to0 x dir) (-x) := by
   unfold negSigned
   simp only [hco, Bool.true_and, decide_eq_true_eq]
   split
-  · exact negLarger_ok w hl hco dir h0 hx
+  · exact negLarger_tri w hl hco dir h0 hx
   · split
-    · exact ok_posOverflow w dir h0 (by omega)
-    · apply ok_eq w dir
+    · exact tri_pos (by omega)
+    · apply tri_eq
       obtain ⟨hp, hr⟩ := w.half_facts
       obtain ⟨h1, h2⟩ := hx
       rename_i hnl hno
@@ -96,16 +96,16 @@ theorem negSigned_ok {t : IntTy} {π : Policy} (w : t.WF π) (hs : t.signed = tr
       simp [hs] at *
       cases hn : π.hasNan <;> cases hi : π.hasInfinity <;> simp [hn, hi] at * <;> omega
 
-theorem negUnsigned_ok {t : IntTy} {π : Policy} (w : t.WF π) (hs : t.signed = false) (hl : t.LargerOK)
+theorem negUnsigned_tri {t : IntTy} {π : Policy} (w : t.WF π) (hs : t.signed = false) (hl : t.LargerOK)
     (hco : π.checkOverflow = true) (dir : Dir) {to0 x : Int} (h0 : t.inRange to0) (hx : t.finite π x) :
-    OK t π dir (negUnsigned t π to0 x dir) (.fin (-x)) := by
+    Tri t π dir to0 (negUnsigned t π to0 x dir) (-x) := by
   unfold negUnsigned
   simp only [hco, Bool.true_and]
   split
-  · exact negLarger_ok w hl hco dir h0 hx
+  · exact negLarger_tri w hl hco dir h0 hx
   · split
     · rename_i hne
-      apply ok_negOverflow w dir h0
+      apply tri_neg
       have h1 := hx.1
       have hne' : x ≠ 0 := by simpa using hne
       unfold IntTy.emin IntTy.cmin at *
@@ -114,23 +114,23 @@ theorem negUnsigned_ok {t : IntTy} {π : Policy} (w : t.WF π) (hs : t.signed = 
     · rename_i hne
       have hz : x = 0 := by simpa using hne
       subst hz
-      exact ok_eq w dir hx
+      exact tri_eq hx
 
-theorem neg_ok {t : IntTy} {π : Policy} (w : t.WF π) (hl : t.LargerOK)
+theorem neg_tri {t : IntTy} {π : Policy} (w : t.WF π) (hl : t.LargerOK)
     (hco : π.checkOverflow = true) (dir : Dir) {to0 x : Int} (h0 : t.inRange to0) (hx : t.finite π x) :
-    OK t π dir (neg t π to0 x dir) (.fin (-x)) := by
+    Tri t π dir to0 (neg t π to0 x dir) (-x) := by
   unfold neg
   cases hs : t.signed
-  · simpa using negUnsigned_ok w hs hl hco dir h0 hx
-  · simpa using negSigned_ok w hs hl hco dir h0 hx
+  · simpa using negUnsigned_tri w hs hl hco dir h0 hx
+  · simpa using negSigned_tri w hs hl hco dir h0 hx
 
 /-! ## add -/
 
-theorem addLarger_ok {t : IntTy} {π : Policy} (w : t.WF π) (hl : t.LargerOK) (hco : π.checkOverflow = true)
+theorem addLarger_tri {t : IntTy} {π : Policy} (w : t.WF π) (hl : t.LargerOK) (hco : π.checkOverflow = true)
     (dir : Dir) {to0 x y : Int} (h0 : t.inRange to0) (hx : t.finite π x) (hy : t.finite π y) :
-    OK t π dir (addLarger t π to0 x y dir) (.fin (x + y)) := by
+    Tri t π dir to0 (addLarger t π to0 x y dir) (x + y) := by
   unfold addLarger
-  apply assignInt_ok w (larger_wf hl _ π) hco (larger_gap hl _) dir h0
+  apply assignInt_tri w (larger_wf hl _ π) hco (larger_gap hl _) dir h0
   obtain ⟨bx1, bx2⟩ := IntTy.finite_bounds hx
   obtain ⟨by1, by2⟩ := IntTy.finite_bounds hy
   have hp := t.half_pos
@@ -142,55 +142,55 @@ theorem addLarger_ok {t : IntTy} {π : Policy} (w : t.WF π) (hl : t.LargerOK) (
     obtain ⟨_, _, h3⟩ := larger_half w.bits_pos hl true
     have := bx1 hs; have := by1 hs; omega
 
-theorem addSigned_ok {t : IntTy} {π : Policy} (w : t.WF π) (hl : t.LargerOK)
+theorem addSigned_tri {t : IntTy} {π : Policy} (w : t.WF π) (hl : t.LargerOK)
     (hco : π.checkOverflow = true) (dir : Dir) {to0 x y : Int} (h0 : t.inRange to0)
     (hx : t.finite π x) (hy : t.finite π y) :
-    OK t π dir (addSigned t π to0 x y dir) (.fin (x + y)) := by
+    Tri t π dir to0 (addSigned t π to0 x y dir) (x + y) := by
   unfold addSigned
   simp only [hco, Bool.true_and, Bool.and_eq_true, decide_eq_true_eq, Bool.not_eq_true', decide_eq_false_iff_not]
   split
-  · exact addLarger_ok w hl hco dir h0 hx hy
+  · exact addLarger_tri w hl hco dir h0 hx hy
   · split
-    · exact ok_posOverflow w dir h0 (by omega)
+    · exact tri_pos (by omega)
     · split
-      · exact ok_negOverflow w dir h0 (by omega)
-      · apply ok_eq w dir
+      · exact tri_neg (by omega)
+      · apply tri_eq
         obtain ⟨h1, h2⟩ := hx
         obtain ⟨h3, h4⟩ := hy
         constructor <;> omega
 
-theorem addUnsigned_ok {t : IntTy} {π : Policy} (w : t.WF π) (hs : t.signed = false) (hl : t.LargerOK)
+theorem addUnsigned_tri {t : IntTy} {π : Policy} (w : t.WF π) (hs : t.signed = false) (hl : t.LargerOK)
     (hco : π.checkOverflow = true) (dir : Dir) {to0 x y : Int} (h0 : t.inRange to0)
     (hx : t.finite π x) (hy : t.finite π y) :
-    OK t π dir (addUnsigned t π to0 x y dir) (.fin (x + y)) := by
+    Tri t π dir to0 (addUnsigned t π to0 x y dir) (x + y) := by
   unfold addUnsigned
   simp only [hco, Bool.true_and, decide_eq_true_eq]
   split
-  · exact addLarger_ok w hl hco dir h0 hx hy
+  · exact addLarger_tri w hl hco dir h0 hx hy
   · split
-    · exact ok_posOverflow w dir h0 (by omega)
-    · apply ok_eq w dir
+    · exact tri_pos (by omega)
+    · apply tri_eq
       obtain ⟨h1, h2⟩ := hx
       obtain ⟨h3, h4⟩ := hy
       have e : t.emin π = 0 := by simp [IntTy.emin, IntTy.cmin, hs]
       constructor <;> omega
 
-theorem add_ok {t : IntTy} {π : Policy} (w : t.WF π) (hl : t.LargerOK)
+theorem add_tri {t : IntTy} {π : Policy} (w : t.WF π) (hl : t.LargerOK)
     (hco : π.checkOverflow = true) (dir : Dir) {to0 x y : Int} (h0 : t.inRange to0)
     (hx : t.finite π x) (hy : t.finite π y) :
-    OK t π dir (add t π to0 x y dir) (.fin (x + y)) := by
+    Tri t π dir to0 (add t π to0 x y dir) (x + y) := by
   unfold add
   cases hs : t.signed
-  · simpa using addUnsigned_ok w hs hl hco dir h0 hx hy
-  · simpa using addSigned_ok w hl hco dir h0 hx hy
+  · simpa using addUnsigned_tri w hs hl hco dir h0 hx hy
+  · simpa using addSigned_tri w hl hco dir h0 hx hy
 
 /-! ## sub -/
 
-theorem subLarger_ok {t : IntTy} {π : Policy} (w : t.WF π) (hl : t.LargerOK) (hco : π.checkOverflow = true)
+theorem subLarger_tri {t : IntTy} {π : Policy} (w : t.WF π) (hl : t.LargerOK) (hco : π.checkOverflow = true)
     (dir : Dir) {to0 x y : Int} (h0 : t.inRange to0) (hx : t.finite π x) (hy : t.finite π y) :
-    OK t π dir (subLarger t π to0 x y dir) (.fin (x - y)) := by
+    Tri t π dir to0 (subLarger t π to0 x y dir) (x - y) := by
   unfold subLarger
-  apply assignInt_ok w (larger_wf hl _ π) hco (larger_gap hl _) dir h0
+  apply assignInt_tri w (larger_wf hl _ π) hco (larger_gap hl _) dir h0
   obtain ⟨bx1, bx2⟩ := IntTy.finite_bounds hx
   obtain ⟨by1, by2⟩ := IntTy.finite_bounds hy
   have hp := t.half_pos
@@ -200,65 +200,65 @@ theorem subLarger_ok {t : IntTy} {π : Policy} (w : t.WF π) (hl : t.LargerOK) (
   · have := bx2 hs; have := by2 hs; omega
   · have := bx1 hs; have := by1 hs; omega
 
-theorem subSigned_ok {t : IntTy} {π : Policy} (w : t.WF π) (hl : t.LargerOK)
+theorem subSigned_tri {t : IntTy} {π : Policy} (w : t.WF π) (hl : t.LargerOK)
     (hco : π.checkOverflow = true) (dir : Dir) {to0 x y : Int} (h0 : t.inRange to0)
     (hx : t.finite π x) (hy : t.finite π y) :
-    OK t π dir (subSigned t π to0 x y dir) (.fin (x - y)) := by
+    Tri t π dir to0 (subSigned t π to0 x y dir) (x - y) := by
   unfold subSigned
   simp only [hco, Bool.true_and, Bool.and_eq_true, decide_eq_true_eq, Bool.not_eq_true', decide_eq_false_iff_not]
   split
-  · exact subLarger_ok w hl hco dir h0 hx hy
+  · exact subLarger_tri w hl hco dir h0 hx hy
   · split
-    · exact ok_negOverflow w dir h0 (by omega)
+    · exact tri_neg (by omega)
     · split
-      · exact ok_posOverflow w dir h0 (by omega)
-      · apply ok_eq w dir
+      · exact tri_pos (by omega)
+      · apply tri_eq
         obtain ⟨h1, h2⟩ := hx
         obtain ⟨h3, h4⟩ := hy
         constructor <;> omega
 
-theorem subUnsigned_ok {t : IntTy} {π : Policy} (w : t.WF π) (hs : t.signed = false) (hl : t.LargerOK)
+theorem subUnsigned_tri {t : IntTy} {π : Policy} (w : t.WF π) (hs : t.signed = false) (hl : t.LargerOK)
     (hco : π.checkOverflow = true) (dir : Dir) {to0 x y : Int} (h0 : t.inRange to0)
     (hx : t.finite π x) (hy : t.finite π y) :
-    OK t π dir (subUnsigned t π to0 x y dir) (.fin (x - y)) := by
+    Tri t π dir to0 (subUnsigned t π to0 x y dir) (x - y) := by
   unfold subUnsigned
   simp only [hco, Bool.true_and, decide_eq_true_eq]
   split
-  · exact subLarger_ok w hl hco dir h0 hx hy
+  · exact subLarger_tri w hl hco dir h0 hx hy
   · split
-    · exact ok_negOverflow w dir h0 (by omega)
-    · apply ok_eq w dir
+    · exact tri_neg (by omega)
+    · apply tri_eq
       obtain ⟨h1, h2⟩ := hx
       obtain ⟨h3, h4⟩ := hy
       have e : t.emin π = 0 := by simp [IntTy.emin, IntTy.cmin, hs]
       constructor <;> omega
 
-theorem sub_ok {t : IntTy} {π : Policy} (w : t.WF π) (hl : t.LargerOK)
+theorem sub_tri {t : IntTy} {π : Policy} (w : t.WF π) (hl : t.LargerOK)
     (hco : π.checkOverflow = true) (dir : Dir) {to0 x y : Int} (h0 : t.inRange to0)
     (hx : t.finite π x) (hy : t.finite π y) :
-    OK t π dir (sub t π to0 x y dir) (.fin (x - y)) := by
+    Tri t π dir to0 (sub t π to0 x y dir) (x - y) := by
   unfold sub
   cases hs : t.signed
-  · simpa using subUnsigned_ok w hs hl hco dir h0 hx hy
-  · simpa using subSigned_ok w hl hco dir h0 hx hy
+  · simpa using subUnsigned_tri w hs hl hco dir h0 hx hy
+  · simpa using subSigned_tri w hl hco dir h0 hx hy
 
 /-! ## abs -/
 
-theorem abs_ok {t : IntTy} {π : Policy} (w : t.WF π) (hl : t.LargerOK)
+theorem abs_tri {t : IntTy} {π : Policy} (w : t.WF π) (hl : t.LargerOK)
     (hco : π.checkOverflow = true) (dir : Dir) {to0 x : Int} (h0 : t.inRange to0) (hx : t.finite π x) :
-    OK t π dir (abs t π to0 x dir) (.fin (if x < 0 then -x else x)) := by
+    Tri t π dir to0 (abs t π to0 x dir) (if x < 0 then -x else x) := by
   unfold abs
   have same : t.GapOK t := Or.inl (Nat.le_refl _)
   cases hs : t.signed
   · have hx0 : ¬ x < 0 := by
       have := hx.1; unfold IntTy.emin IntTy.cmin at this; simp [hs] at this; omega
     simp only [hx0, if_false]
-    have := assignInt_ok w w hco same dir h0 hx
+    have := assignInt_tri w w hco same dir h0 hx
     unfold assignInt at this
     simpa [hs] using this
   · simp only [if_true]
     split
-    · exact neg_ok w hl hco dir h0 hx
-    · exact assignInt_ok w w hco same dir h0 hx
+    · exact neg_tri w hl hco dir h0 hx
+    · exact assignInt_tri w w hco same dir h0 hx
 
 end PPLV.Checked
